@@ -63,8 +63,14 @@ def check(prog, run):
     for ci, m in prog.class_methods("pyoma2.algorithms", "run"):
         res = astq.handover(prog, m, fi.qual, {"nxseg": {"self.run_params.nxseg"}, "method": {"self.run_params.method_SD"},
                                                 "pov": {"self.run_params.pov"}, "dt": {"self.dt", "1 / self.fs"}})
+        est_params = set(astq.params_of(fi.node)[0] + astq.params_of(fi.node)[1])
         for c, p_, ok, detail in res:
             n_callers += 1
+            if p_ == "dt" and ok is False and "is not passed" in detail and "fs" in est_params:
+                # the sampling is handed over as a frequency instead: the estimator's `fs` parameter takes self.fs (or 1 / self.dt)
+                alt = [x for x in astq.handover(prog, m, fi.qual, {"fs": {"self.fs", "1 / self.dt"}}) if x[0] is c]
+                if alt:
+                    _, _, ok, detail = alt[0]
             run.ob("R-param", m.qual, f"run_params -> SD_est.{p_}", ok, detail, witness=detail[:90], file=rel(prog.mods[m.mod].path), node=c, config=p_)
     if not n_callers:
         run.ob("R-param", "pyoma2.algorithms", "callers of SD_est", None, "no run() method calling SD_est found")
@@ -159,7 +165,17 @@ def cor_grid(prog, run, fi, f):
                 ra = symidx.range_args(se, rc)
                 v = se.ev(fac)
                 exp = P({(("dt", -1), ("nxseg", -1)): 1})
+                pnames = set(astq.params_of(fi.node)[0] + astq.params_of(fi.node)[1])
+                if v is not None and "fs" in pnames and any(s_ == "fs" for k_ in v.t for s_, _ in k_):
+                    # the sampling frequency handed in (or derived from dt at entry) is 1/dt by the routine's contract
+                    v = P({tuple(sorted([(("dt" if s_ == "fs" else s_), (-e_ if s_ == "fs" else e_)) for s_, e_ in k_])): c_ for k_, c_ in v.t.items()})
                 ok = v is not None and v == exp and ra is not None and ra[0] == P.c(0) and ra[2] == P.c(1)
+                if not ok and v is not None and ra is not None:
+                    # decided as different only when the spacing is written in the routine's own parameters or in the extent of an array it
+                    # computed (a length that is nxseg only for some nxseg); other symbols are not read
+                    syms = {s_ for k_ in v.t for s_, _ in k_}
+                    if not (syms <= {"dt", "nxseg"} or any(".shape[" in s_ or s_.startswith("len(") for s_ in syms)):
+                        ok = None
                 run.ob("O-grid", fi.qual, "cor grid spacing", ok, f"freq = arange({ra[0] if ra else '?'}, ..) * ({v!r})",
                        witness=f"{v!r}", file=f, node=n, config="method=cor")
     if not found:
